@@ -169,7 +169,7 @@ def families(prog):
     parent = {}
     for i, r in enumerate(prog['routines']):
         for st in r['body']:
-            if st[0] in ('spawn', 'spawnd'):
+            if st[0] in ('spawn', 'spawnd', 'embed'):
                 parent[st[1]] = i
     fam = {}
     for i, r in enumerate(prog['routines']):
